@@ -140,7 +140,17 @@ func namesakes() []any {
 	type SStack struct{ X int }
 	type ACond struct{ X string }
 	type SCond struct{ X string }
-	return []any{AStack{1}, &AStack{2}, SStack{3}, ACond{"x"}, &ACond{"y"}, SCond{"z"}}
+	// ... and unrelated types that merely EMBED an initialised Stack / Condition next to other fields: not aliases either
+	type HasStack struct {
+		stackage.Stack
+		Name string
+	}
+	type HasCond struct {
+		stackage.Condition
+		Name string
+	}
+	return []any{AStack{1}, &AStack{2}, SStack{3}, ACond{"x"}, &ACond{"y"}, SCond{"z"},
+		HasStack{stackage.And().Push(1), "n"}, &HasStack{stackage.Or().Push(2), "m"}, HasCond{stackage.Cond("k", stackage.Eq, 1), "c"}, &HasCond{stackage.Cond("k", stackage.Ne, 2), "d"}}
 }
 
 func feedNamesakes() string {
@@ -151,7 +161,7 @@ func feedNamesakes() string {
 			_, c1 := stackage.ConvertCondition(x)
 			out += b01(s1) + b01(c1)
 		}
-		if out != "000000000000" {
+		if strings.Contains(out, "1") {
 			return "NAMESAKE-CONVERTED:" + out
 		}
 		return ""
